@@ -786,6 +786,74 @@ Proof.
   - unfold bounded in *. rewrite LB. exact B0.
 Qed.
 
+(** inserting the computed checksum into any word-aligned zeroed field makes the sum 0xFFFF *)
+Lemma insert_verifies h p payload proto :
+  wf_hdr h -> 0 < proto < 256 -> Nat.even (length p) = true -> wf_bytes p -> wf_bytes payload ->
+  bounded (p ++ [0; 0] ++ payload) ->
+  exists ck, compute_checksum h (p ++ [0; 0] ++ payload) proto = Ok ck /\ ck < 65536 /\
+             verify_sum h (N.of_nat (length (p ++ [0; 0] ++ payload))) (p ++ be 2 ck ++ payload) proto = Ok 65535.
+Proof.
+  intros WH [P0 P1] Ep Wp WP B0.
+  set (u0 := p ++ [0; 0] ++ payload) in *.
+  assert (W0 : wf_bytes u0).
+  { unfold u0. apply Forall_app. split; [exact Wp|]. apply Forall_app. split; [|exact WP].
+    repeat constructor; unfold wf_byte; lia. }
+  rewrite (compute_exact h u0 _ WH P1 W0 B0).
+  set (S := wsum (covered h (N.of_nat (length u0)) u0 proto)) in *.
+  assert (SP : 0 < S).
+  { unfold S. rewrite covered_wsum by exact WH. pose proof (pseudo_pos h (N.of_nat (length u0)) _ WH P0). lia. }
+  pose proof (ones_range S SP) as OR.
+  exists (65535 - ones S). split; [reflexivity|]. split; [lia|].
+  set (ck := 65535 - ones S) in *.
+  assert (CK : ck < 65536) by (unfold ck; lia).
+  assert (LB : length (p ++ be 2 ck ++ payload) = length u0).
+  { unfold u0. rewrite !app_length, be_length. reflexivity. }
+  assert (WB : wf_bytes (p ++ be 2 ck ++ payload)).
+  { apply Forall_app. split; [exact Wp|]. apply Forall_app. split; [apply be_wf | exact WP]. }
+  assert (BB : bounded (p ++ be 2 ck ++ payload)) by (unfold bounded in *; rewrite LB; exact B0).
+  assert (Hl : N.of_nat (length u0) < 2 ^ 32).
+  { unfold bounded in B0. change (2 ^ 32) with 4294967296. lia. }
+  rewrite (verify_exact h _ _ _ WH Hl P1 WB BB). f_equal.
+  rewrite covered_wsum by exact WH. rewrite (wsum_insert p ck payload Ep CK).
+  fold u0. rewrite N.add_assoc. rewrite <- (covered_wsum h _ u0 _ WH). fold S.
+  unfold ck. now apply ones_complement.
+Qed.
+
+(** where a flip of region 4 / 5 lands in  p ++ (two bytes) ++ payload *)
+Definition fp (p : bytes) (region idx bit : N) : bytes :=
+  match region with 4 => flip_bit p (N.to_nat idx) bit | _ => p end.
+Definition fpl (payload : bytes) (region idx bit : N) : bytes :=
+  match region with 5 => flip_bit payload (N.to_nat idx) bit | _ => payload end.
+
+Lemma flip_upper_struct h p mid payload region idx bit : length mid = 2%nat ->
+  valid_flip h (N.of_nat (length p)) (p ++ mid ++ payload) region idx bit ->
+  flip_upper (N.of_nat (length p)) (p ++ mid ++ payload) region idx bit =
+  fp p region idx bit ++ mid ++ fpl payload region idx bit /\
+  length (fp p region idx bit) = length p /\ length (fpl payload region idx bit) = length payload /\
+  (wf_bytes p -> wf_bytes (fp p region idx bit)) /\ (wf_bytes payload -> wf_bytes (fpl payload region idx bit)).
+Proof.
+  intros LM V.
+  destruct V as [[-> V]|[[-> V]|[[-> [V J]]|[[-> [V J]]|[[-> (V1 & V2 & J)]|[-> [V J]]]]]]];
+    cbn [flip_upper fp fpl]; try (repeat split; auto; fail).
+  - repeat split; auto using flip_bit_length.
+    + apply flip_bit_app_l. lia.
+    + intros W. now apply flip_bit_wf.
+  - repeat split; auto using flip_bit_length.
+    + replace (N.to_nat (N.of_nat (length p) + 2 + idx)) with (length p + (length mid + N.to_nat idx))%nat by lia.
+      rewrite flip_bit_app_r, flip_bit_app_r. reflexivity.
+    + intros W. now apply flip_bit_wf.
+Qed.
+
+Lemma set_ck_struct p mid payload ck : length mid = 2%nat ->
+  set_ck (N.of_nat (length p)) (p ++ mid ++ payload) ck = p ++ be 2 ck ++ payload.
+Proof.
+  intros LM. unfold set_ck. rewrite Nat2N.id.
+  rewrite firstn_app, firstn_all, Nat.sub_diag. cbn [firstn]. rewrite app_nil_r. f_equal. f_equal.
+  rewrite skipn_app. rewrite skipn_all2 by lia. cbn [app].
+  replace (length p + 2 - length p)%nat with (length mid) by lia.
+  rewrite skipn_app, skipn_all, Nat.sub_diag. reflexivity.
+Qed.
+
 Lemma flip_oracle_model h l payload b region idx bit :
   wf_hdr h -> wf_l4 l -> wf_bytes payload -> small payload -> serialize h l payload = Ok b ->
   valid_flip h (prelen l) b region idx bit ->
@@ -799,6 +867,9 @@ Proof.
   set (u0 := p ++ [0; 0] ++ payload) in *.
   set (n := N.of_nat (length u0)) in *.
   assert (Hn : n < 2 ^ 32) by (unfold n, bounded in *; change (2 ^ 32) with 4294967296; lia).
+  assert (PL : prelen l = N.of_nat (length p)) by (symmetry; apply pre_length).
+  assert (Wp : wf_bytes p) by (now apply pre_wf).
+  assert (Ep : Nat.even (length p) = true) by apply pre_even.
   assert (V0 : valid_flip h (prelen l) u0 region idx bit).
   { unfold valid_flip in *. rewrite <- LB. exact V. }
   (* the flipped serialized bytes *)
@@ -807,9 +878,18 @@ Proof.
   (* the flipped sender input *)
   destruct (covered_flip h n u0 (proto_of l) (prelen l) region idx bit WH W0 V0)
     as (_ & W0' & L0' & pp0 & jj0 & J0 & PP0 & EC0).
+  (* their structure *)
+  set (ck := 65535 - ones (wsum (covered h n u0 (proto_of l)))) in *.
+  rewrite PL in V, V0. rewrite EB in V.
+  destruct (flip_upper_struct h p (be 2 ck) payload region idx bit (be_length 2 ck) V)
+    as (SB & Lp' & Lpl' & Wp' & Wpl').
+  destruct (flip_upper_struct h p [0; 0] payload region idx bit eq_refl V0) as (S0 & _).
+  rewrite <- PL in SB, S0. rewrite <- EB in SB.
   set (h' := flip_hdr h region idx bit) in *.
   set (b' := flip_upper (prelen l) b region idx bit) in *.
   set (u0' := flip_upper (prelen l) u0 region idx bit) in *.
+  set (p' := fp p region idx bit) in *. set (pay' := fpl payload region idx bit) in *.
+  change (flip_upper (prelen l) (p ++ [0; 0] ++ payload) region idx bit) with u0' in S0.
   assert (BB' : bounded b') by (unfold bounded in *; rewrite LB'; exact BB).
   assert (B0' : bounded u0') by (unfold bounded in *; rewrite L0'; exact B0).
   unfold flip_oracle. fold h' b'. rewrite LB. fold n.
@@ -818,14 +898,22 @@ Proof.
   pose proof (single_bit_covered h n b (proto_of l) h' n b' (proto_of l) pp jj
                 WH Hn P1 WB BB WH' Hn P1 WB' BB' PP J EC) as NE.
   rewrite (verify_exact h' n b' _ WH' Hn P1 WB' BB') in *. rewrite VER in NE.
+  (* part 3: the implementation's new checksum verifies *)
+  assert (Ep' : Nat.even (length p') = true) by (rewrite Lp'; exact Ep).
+  assert (B0'' : bounded (p' ++ [0; 0] ++ pay')) by (rewrite <- S0; exact B0').
+  destruct (insert_verifies h' p' pay' (proto_of l) WH' (conj P0 P1) Ep' (Wp' Wp) (Wpl' WP) B0'')
+    as (ck' & CE' & CK' & VER').
+  rewrite <- S0 in CE', VER'. rewrite L0' in VER'. fold n in VER'.
+  unfold model_flip. fold h' u0'. rewrite CE'.
+  assert (SC : set_ck (prelen l) b' ck' = p' ++ be 2 ck' ++ pay').
+  { rewrite SB, PL, <- Lp'. apply set_ck_struct. apply be_length. }
+  rewrite SC, VER'.
   destruct (N.eqb_spec (ones (wsum (covered h' n b' (proto_of l)))) 65535) as [X|_];
-    [rewrite X in NE; contradiction|]. cbn [negb andb].
+    [rewrite X in NE; contradiction|]. cbn [negb andb]. rewrite N.eqb_refl, andb_true_r.
   (* part 2: the checksum written for the flipped input differs *)
-  unfold model_flip. fold h' u0'.
-  pose proof (compute_exact h' u0' _ WH' P1 W0' B0') as CE'. rewrite L0' in CE'. fold n in CE'.
-  rewrite CE'. rewrite EB.
-  assert (PL : prelen l = N.of_nat (length p)) by (symmetry; apply pre_length).
-  rewrite PL, (ck_of_serialized p _ payload CK).
+  pose proof (compute_exact h' u0' _ WH' P1 W0' B0') as CE2. rewrite L0' in CE2. fold n in CE2.
+  rewrite CE' in CE2. apply ok_inj in CE2. rewrite CE2.
+  rewrite EB, PL, (ck_of_serialized p _ payload CK).
   rewrite EC0.
   pose proof (single_bit_bytes (covered h n u0 (proto_of l)) pp0 jj0
                 (covered_wf h n u0 _ WH P1 W0) PP0 J0) as NE0.
@@ -834,9 +922,10 @@ Proof.
   assert (SP' : 0 < wsum (flip_bit (covered h n u0 (proto_of l)) pp0 jj0)).
   { rewrite <- EC0. rewrite covered_wsum by exact WH'. pose proof (pseudo_pos h' n _ WH' P0). lia. }
   pose proof (ones_range _ SP). pose proof (ones_range _ SP').
-  destruct (N.eqb_spec (65535 - ones (wsum (flip_bit (covered h n u0 (proto_of l)) pp0 jj0)))
-                       (65535 - ones (wsum (covered h n u0 (proto_of l))))) as [X|_]; [|reflexivity].
-  exfalso. apply NE0. lia.
+  fold ck.
+  destruct (N.eqb_spec (65535 - ones (wsum (flip_bit (covered h n u0 (proto_of l)) pp0 jj0))) ck) as [X|_];
+    [|reflexivity].
+  exfalso. apply NE0. unfold ck in X. lia.
 Qed.
 
 Lemma lxor_lt_pow2 a i w : a < 2 ^ w -> i < w -> N.lxor a (2 ^ i) < 2 ^ w.
